@@ -26,6 +26,7 @@ pub struct WaveletTree<T, BRS, const COMPRESSED: bool = false> {
     phantom_data: PhantomData<T>,
 }
 
+#[cfg_attr(qwt_verif, derive(Clone))]
 struct LenInfo(usize, u32); //symbol, len
 
 #[allow(clippy::identity_op)]
@@ -37,6 +38,9 @@ fn craft_wm_codes(freq: &mut HashMap<usize, u32>, sigma: usize) -> Vec<PrefixCod
         .iter()
         .map(|(&k, &v)| LenInfo(k, v))
         .collect::<Vec<_>>();
+
+    #[cfg(qwt_verif)]
+    crate::verif_hooks::order_equal_length_symbols(&mut f, |x| x.0, |x| x.1);
 
     f.sort_by_key(|x| x.1);
 
@@ -131,7 +135,13 @@ where
                 map
             });
 
+            #[cfg(qwt_verif)]
+            let verif_freqs = freqs.clone();
+
             let mut lengths = Coding::from_frequencies(BitsPerFragment(1), freqs).code_lengths();
+
+            #[cfg(qwt_verif)]
+            crate::verif_hooks::permute_lengths_among_equal_freqs(&verif_freqs, &mut lengths);
 
             let sigma: usize = sigma
                 .to_usize()
